@@ -145,6 +145,12 @@ fn macro_programs(em: &mut Emit, rng: &mut Rng, n: u64) {
             ("l".into(), Value::List(std::sync::Arc::new(vec![Value::Int(1), Value::Int(2)]))),
             // ranges whose elements are null, and a map whose keys are uints beyond the int range
             ("ln".into(), Value::List(std::sync::Arc::new(vec![Value::Int(1), Value::Null, Value::Int(3)]))),
+            // neighbouring elements that are equal (`==`) without being the same value: the iteration
+            // variable has to be rebound for each of them
+            ("le".into(), Value::List(std::sync::Arc::new(vec![
+                Value::Int(1), Value::UInt(1), Value::Float(1.0), Value::Int(1), Value::Float(0.0), Value::Float(-0.0),
+                Value::List(std::sync::Arc::new(vec![Value::Int(2)])), Value::List(std::sync::Arc::new(vec![Value::UInt(2)])),
+            ]))),
             ("mu".into(), Value::Map(cel_interpreter::objects::Map { map: std::sync::Arc::new(std::collections::HashMap::from([
                 (cel_interpreter::objects::Key::Uint(2), Value::Int(1)),
                 (cel_interpreter::objects::Key::Uint(u64::MAX), Value::Int(2)),
@@ -171,11 +177,14 @@ fn macro_programs(em: &mut Emit, rng: &mut Rng, n: u64) {
         }
         let v = *rng.pick(names);
         let inner = gen(rng, depth - 1, names, leafs);
-        let range = match rng.below(9) {
+        let range = match rng.below(12) {
             0 | 1 | 2 => format!("[{}]", leafs(rng)),
             3 => "ln".to_string(),
             4 => "[null]".to_string(),
             5 => "mu".to_string(),
+            6 => "le".to_string(),
+            7 => "[2, 2u, 2.0, 0.0, -0.0, [0.0], [-0.0]]".to_string(),
+            8 => format!("[{}, 7u, 7.0, 7]", leafs(rng)),
             _ => "l".to_string(),
         };
         match rng.below(5) {
